@@ -26,5 +26,6 @@ func c02(c *Ctx) {
 	n := resetR1(c, hu, 0, nil)
 	n += resetR1(c, pu, 0, nil)
 	r.Floor("decoded fields checked by RESET.R1", n, 20)
+	c.wrapScope = map[string]bool{"rtp.(*Header).Unmarshal": true, "rtp.(*Packet).Unmarshal": true}
 	boundsFor(c, "C02", []*ssa.Function{hu, pu, ge, gi})
 }
